@@ -240,3 +240,91 @@ func VP_C05_TwoConnectionsOwnAnswers() {
 	}
 	vpCover("end")
 }
+
+// ---- accept loop ----
+
+type vpTempErr struct{}
+
+func (vpTempErr) Error() string   { return "too many open files" }
+func (vpTempErr) Temporary() bool { return true }
+func (vpTempErr) Timeout() bool   { return false }
+
+type vpFatalErr struct{}
+
+func (vpFatalErr) Error() string { return "listener closed" }
+
+// vpListener hands out scripted connections; a temporary accept error comes first or in between.
+type vpListener struct {
+	script []interface{} // net.Conn or error
+	pos    int
+}
+
+func (l *vpListener) Accept() (net.Conn, error) {
+	if l.pos >= len(l.script) {
+		return nil, vpFatalErr{}
+	}
+	x := l.script[l.pos]
+	l.pos++
+	if c, ok := x.(net.Conn); ok {
+		return c, nil
+	}
+	return nil, x.(error)
+}
+func (l *vpListener) Close() error   { return nil }
+func (l *vpListener) Addr() net.Addr { return vpAddr{} }
+
+type vpNotifyConn struct {
+	*vpConn
+	closed chan bool
+}
+
+func (c *vpNotifyConn) Close() error {
+	err := c.vpConn.Close()
+	c.closed <- true
+	return err
+}
+
+// VP_C05_AcceptLoop: the accept loop serves every accepted connection with its own answer, each
+// exactly once, and survives temporary accept errors (it keeps accepting).
+func VP_C05_AcceptLoop() {
+	var l [4]int
+	l[0], l[1] = 1, 1
+	r1 := vpReq(l)
+	r2 := vpReq(l)
+	closed := make(chan bool, 8)
+	mk := func(r Request) *vpNotifyConn {
+		return &vpNotifyConn{&vpConn{in: &vpFragReader{data: refEncode(r.Login, r.Password, "", ""), maxReads: 1, endErr: io.EOF}}, closed}
+	}
+	c1, c2 := mk(r1), mk(r2)
+	tmp := &net.OpError{Op: "accept", Net: "unix", Err: vpTempErr{}}
+	var script []interface{}
+	switch vpChoose("temporary-error", 3) {
+	case 0:
+		script = []interface{}{c1, c2}
+	case 1:
+		script = []interface{}{tmp, c1, c2}
+	case 2:
+		script = []interface{}{c1, tmp, c2}
+	}
+	s := &Server{ln: &vpListener{script: script}, cb: func(login, password, service, realm string) (bool, string, error) {
+		return login == password, "", nil
+	}}
+	err := s.Run()
+	vpAssert("run-ends-only-on-the-fatal-error", err != nil && err.Error() == "listener closed")
+	a := vpAwait(closed)
+	b := vpAwait(closed)
+	vpAssert("every-accepted-connection-is-closed", a && b)
+	vpAssert("each-connection-closed-exactly-once", c1.closes == 1 && c2.closes == 1)
+	var a1, a2 Response
+	e1 := a1.Decode(bytes.NewReader(c1.written))
+	e2 := a2.Decode(bytes.NewReader(c2.written))
+	vpAssert("each-connection-gets-exactly-one-reply", e1 == nil && e2 == nil)
+	if e1 == nil && e2 == nil {
+		vpAssert("each-connection-gets-its-own-answer", a1.Result == (r1.Login == r1.Password) && a2.Result == (r2.Login == r2.Password))
+	}
+	vpCover("end")
+}
+
+// VP_C10_SaslAcceptLoopKeepsAccepting: the saslauthd frontend keeps accepting after transient
+// accept errors (same scenario as VP_C05_AcceptLoop, claimed under C10's "keeps accepting").
+func VP_C10_SaslAcceptLoopKeepsAccepting() { VP_C05_AcceptLoop() }
